@@ -163,8 +163,9 @@ def gen_case(rng, tier, big=False):
         if n <= (8000 if not big else 400000):
             break
     orders = [rng.rint(0, 5) for _ in range(nd)]
-    if rng.chance(0.6):
-        orders = [min(o, a - 1) for o, a in zip(orders, axes)]      # evaluable tables (naxes >= order+1)
+    # well-formed tables only: since the reader validates what it loads (fixes c5fedd9..c025081, property C07) a table
+    # with naxes < order+1, or with non-finite / decreasing knots, is refused on read-back — and is not a spline table
+    orders = [min(o, a - 1) for o, a in zip(orders, axes)]      # naxes >= order+1, i.e. nknots >= 2*order+2
     knots = []
     for a, o in zip(axes, orders):
         nk = a + o + 1
@@ -179,10 +180,10 @@ def gen_case(rng, tier, big=False):
             ks = sorted(dbits((rng.unit() - 0.5) * 10 ** rng.rint(-30, 30)) for _ in range(nk))
             ks = [dbits(v) for v in sorted(dfrom(w) for w in ks)]
         else:
-            base = sorted([(rng.unit() - 0.5) * 1e3 for _ in range(nk)])
+            # extreme but admissible knot values: huge, denormal, signed zeros, repeated — finite and non-decreasing
+            pool = [-1.7e308, -1e300, -1.0, -5e-324, -0.0, 0.0, 5e-324, 2.2e-308, 1.0, 1e300, 1.7e308]
+            base = sorted([rng.choice(pool) if rng.chance(0.5) else (rng.unit() - 0.5) * 1e3 for _ in range(nk)])
             ks = [dbits(v) for v in base]
-            for _ in range(rng.rint(1, 2)):
-                ks[rng.below(nk)] = rng.choice(SPECIAL64)
         knots.append(ks)
     cstyle = rng.choice(["bits", "bits", "smooth", "special", "mixed"])
     coefs = []
